@@ -24,7 +24,7 @@ CHECKS = {
  "C02": ("translation_validation",
          "differential execution (property-based + exhaustive small shapes): interpreter of the typed IR vs an independent parser and evaluator of the emitted Metal text under C++ rules",
          "As C01 for the Metal target: reference parameters alias, calls must match a declared function by arity and tag type, brace initialisation zero-fills, metal:: builtins are mapped by a per-dialect table, implicit parameters for static globals are bound by name and their final values compared with the interpreter's globals, out/inout parameters go through the emitted trampolines. Text that is not meaningful as C++ is a violation. The aliasing table and the crafted operand rows of C01 are run for Metal as well. 43 000 programs quick, about 0.9 M thorough.",
-         "Per-program validation by execution on sampled argument vectors. Static globals are initialised by a pipeline entry point that no-pipeline mode does not emit, so their initial values come from the IR. One recorded finding: KF-C02-1 (float %= in Metal).",
+         "Per-program validation by execution on sampled argument vectors. Static globals are initialised by a pipeline entry point that no-pipeline mode does not emit, so their initial values come from the IR..",
          "DESIGN.md section 3, C02"),
  "C12": ("exploration",
          "property-based testing against a reference C macro expander (hide sets) + metamorphic relations (include pasting, define placement)",
